@@ -126,7 +126,7 @@ def has_derivative(r):
 def explore_mesh(run, cellname, quick):
     U = universe(cellname)
     g = EV.TDIM[cellname]
-    envs = EV.cell_envs(cellname, n=1 if quick else 2)
+    envs = EV.cell_envs(cellname, n=1)
     seen = set()
     chk = make_check()
 
@@ -184,12 +184,12 @@ def explore_mesh(run, cellname, quick):
         if s.rank == 0:
             for fn in SCALAR_FNS if not quick else ["sqrt", "exp", "sin", "ln", "abs"]:
                 c.append((fn, s.recipe))
-        for b in [x for x in l0 if x.recipe[1] in (("f", "v", "x") if quick else ("f", "v", "A", "x", "c"))]:
-            for op in ("mul", "add", "dot") if quick else ("mul", "add", "div", "dot", "inner", "outer"):
+        for b in [x for x in l0 if x.recipe[1] in (("f", "v", "x") if quick else ("f", "v", "A", "x"))]:
+            for op in ("mul", "add", "dot") if quick else ("mul", "add", "div", "dot"):
                 c.append((op, s.recipe, b.recipe))
     l2 = level(c, 2, sample_every=300)
     # derivative levels: every derivative operator on every state (no free indices left over from 'i')
-    l2q = l2 if not quick else sorted(l2, key=lambda s: (len(repr(s.recipe)), repr(s.recipe)))[:400]
+    l2q = sorted(l2, key=lambda s: (len(repr(s.recipe)), repr(s.recipe)))[: (400 if quick else 900)]
     base = [s for s in l0 + l1 + l2q if not s.cond and not s.fid]
     c = []
     for s in base:
@@ -197,14 +197,14 @@ def explore_mesh(run, cellname, quick):
     d1 = level(c, 3, sample_every=500)
     c = []
     src = [s for s in d1 if not s.fid]
-    if quick:
-        # second derivatives: the first-derivative states with the shortest recipes (3D: fewer, order-3 jets in three
-        # variables dominate the cost of the quick tier); the thorough tier differentiates all of them
-        src = sorted(src, key=lambda s: (len(repr(s.recipe)), repr(s.recipe)))[: (1500 if g == 2 else 450)]
+    # second derivatives: the first-derivative states with the shortest recipes (3D: fewer, order-3/4 jets in three
+    # variables dominate the cost); differentiating all of them does not finish in an hour
+    ncap = (1500 if g == 2 else 450) if quick else (3000 if g == 2 else 900)
+    src = sorted(src, key=lambda s: (len(repr(s.recipe)), repr(s.recipe)))[:ncap]
     for s in src:
         c += d_cands(s, g)
     # products of derivatives with terminals, then differentiated again (product rule on derivatives)
-    for s in [s for s in d1 if not s.fid][: ((200 if g == 2 else 60) if quick else 2000)]:
+    for s in [s for s in d1 if not s.fid][: ((200 if g == 2 else 60) if quick else (400 if g == 2 else 120))]:
         c.append(("grad", ("mul", ("t", "f"), s.recipe)))
         if s.rank >= 1:
             c.append(("divg", ("mul", ("t", "f"), s.recipe)))
@@ -212,7 +212,7 @@ def explore_mesh(run, cellname, quick):
     levels = [l0, l1, l2, d1, d2]
     if not quick:
         c = []
-        for s in [s for s in d2 if not s.fid and len(repr(s.recipe)) < 120]:
+        for s in sorted([s for s in d2 if not s.fid], key=lambda s: (len(repr(s.recipe)), repr(s.recipe)))[:300]:
             c += [("grad", s.recipe), ("dx", s.recipe, 0)] + ([("divg", s.recipe)] if s.rank else [])
         d3 = level(c, 5, sample_every=10000)
         levels.append(d3)
